@@ -21,6 +21,7 @@ func (e *Engine) resetPure(fc *FnCtx) {
 	fc.pureDefs = map[*ssa.Function]*pureDef{}
 	fc.globalsNoted = map[string]bool{}
 	fc.iters = map[*ssa.Range]*rangeIter{}
+	fc.strIters = map[*ssa.Range]*Term{}
 }
 
 // pureReads: heap keys (with sorts) a function may read, transitively. Syntactic.
@@ -308,7 +309,7 @@ func (e *Engine) ensurePureDef(fc *FnCtx, fn *ssa.Function) *pureDef {
 	}
 	// translate the body in pure mode
 	sub := &FnCtx{eng: e, fn: fn, con: con, tb: tb, so: fc.so, pureMode: true, keySort: fc.keySort, keys: fc.keys,
-		regs: map[ssa.Value]Val{}, pureDefs: fc.pureDefs, globalsNoted: fc.globalsNoted, iters: map[*ssa.Range]*rangeIter{},
+		regs: map[ssa.Value]Val{}, pureDefs: fc.pureDefs, globalsNoted: fc.globalsNoted, iters: map[*ssa.Range]*rangeIter{}, strIters: map[*ssa.Range]*Term{},
 		calleesUsed: map[string]bool{}, cellNames: map[string][]*ssa.Alloc{}, arith: "math", notes: fc.notes, covers: map[string]*Term{}}
 	sub.findLoops()
 	if len(sub.loopList) > 0 {
